@@ -310,7 +310,8 @@ Definition step_io (c : cfg) (s : state) (ch : choice) : option (state * list la
   | IoRcvLoop (IBody :: its) ww, CIo =>
       if pend100 s then
         if Nat.eqb (nreq s) 0 && negb (sentc s)
-        then ret (goio (set_pend100 s false) (IoScA its ww)) [LR AReq]   (* send_continue resets completed (F5) *)
+        then ret (goio (set_pend100 s false) (IoScA (IReq :: its) ww)) [LR AReq]
+             (* send_continue, then the completed request is appended *)
         else ret (goio (set_pend100 s false) (IoRcvApp its ww)) [LR AReq]
       else ret (goio s (IoRcvApp its ww)) []
   | IoRcvApp its ww, CIo =>       (* sent_continue = False; requests.append *)
